@@ -1904,6 +1904,8 @@ class _AssociationSet(_AssociationSingleItem[_T], MutableSet[_T]):
                 self.add(value)
 
     def _bulk_replace(self, assoc_proxy: Any, values: Iterable[_T]) -> None:
+        # may be a generator; it is walked three times
+        values = list(values or ())
         existing = set(self)
         constants = existing.intersection(values or ())
         additions = set(values or ()).difference(constants)
